@@ -313,11 +313,13 @@ CHECKS = {
              "(heartbeat rows written directly, no sleeping), 1-2 workers sweeping in turn through fail_stale_trials and "
              "through optimize while queued retries are taken and die again, and two workers sweeping concurrently "
              "interleaved per SQL statement with one possibly dying mid-sweep (its connection closed, as the OS would); "
+             "a family with the database clock frozen by the harness puts heartbeats exactly grace-1, grace and grace+1 "
+             "seconds before the sweep (older-than-grace is decided by the trace specification from the logged age); "
              "TLC validates every execution against HeartbeatTrace.",
         note="Trusted: TLC, the instrumentation of set_trial_state_values/the callback on the storage object (outside the "
              "repository). RDB = SQLite. Stale heartbeat rows are written by SQL, fresh ones by the real record_heartbeat "
              "(insert and update path) under time zones other than UTC; every second execution deletes a study with heartbeats "
-             "first; a zombie worker writes to the stale trial while the sweeper is preempted. Known finding K1 (double FAIL "
+             "first; frozen clock = CURRENT_TIMESTAMP replaced by a literal in the statement text (one-second resolution); a zombie worker writes to the stale trial while the sweeper is preempted. Known finding K1 (double FAIL "
              "across connections) matched by shape on the concurrent family only.",
         technique="TLA+ algorithm spec model-checked with TLC (incl. a failing SQLite variant); real sweeps, sequential "
                   "and scheduled per SQL statement, validated by TLC (trace validation)",
